@@ -410,7 +410,10 @@ fn txin_cbor_rt(i: &TxIn) -> String {
     }
 }
 fn cache_flags(t: &Transaction) -> String {
-    t.verif_hash_cache().iter().map(|x| if x.is_some() { '1' } else { '0' }).collect()
+    match crate::util::cache_view(t) {
+        Some(c) => c.iter().map(|x| if x.is_some() { '1' } else { '0' }).collect(),
+        None => "???".into(),
+    }
 }
 /// serialise a transaction whose sighash cache is filled; nothing of the cache may reach the encodings and a decoded
 /// transaction starts with an empty cache
@@ -421,7 +424,7 @@ fn cached_rt(fresh: &Transaction) -> String {
     }
     let before = cache_flags(&tx);
     let cl = tx.clone();
-    let clone_ok = cl == tx && cl.verif_hash_cache() == tx.verif_hash_cache() && cl.to_json_string().ok() == tx.to_json_string().ok()
+    let clone_ok = cl == tx && crate::util::cache_view(&cl) == crate::util::cache_view(&tx) && cl.to_json_string().ok() == tx.to_json_string().ok()
         && cl.to_compact_bytes().ok() == tx.to_compact_bytes().ok();
     let (j, c) = match (tx.to_json_string(), tx.to_compact_bytes()) {
         (Ok(j), Ok(c)) => (j, c),
